@@ -91,7 +91,13 @@ func ZZ_S07b_RetryTimeout() {
 		if n == 1 {
 			zzvrt.Sleep(d1)
 		} else {
+			// the execution handed to the function is its own copy: what it shows as the last attempt's outcome
+			// does not change while the attempt runs, even if this attempt's own timeout fires meanwhile (C14/C17)
+			le, lr := e.LastError(), e.LastResult()
+			zzvrt.Assert(errors.Is(le, timeout.ErrExceeded), "stats: LastError is the most recent completed attempt's error")
 			zzvrt.Sleep(d2)
+			zzvrt.Assert(e.LastError() == le, "concurrency: the execution given to the function is not modified by the timeout's goroutine")
+			zzvrt.Assert(e.LastResult() == lr, "concurrency: the execution given to the function is not modified by the timeout's goroutine")
 		}
 		return 7, nil
 	})
@@ -154,6 +160,9 @@ func ZZ_S07c_TimeoutFallback() {
 			zzvrt.Assert(listener == 1, "timeout: listener called exactly once when ErrExceeded is returned")
 			zzvrt.Assert(end-start >= int64(T), "timeout: ErrExceeded never before the time limit elapsed")
 			zzvrt.Assert(r == 0, "cancel: never the output of a fallback that the timeout encloses")
+			if d > T {
+				zzvrt.Assert(fbCalls == 0, "fallback: not applied when the execution was already cancelled when the inner result arrived")
+			}
 		} else {
 			zzvrt.Assert(err == nil, "timeout: inner (fallback) result returned unchanged")
 			zzvrt.Assert(r == 99, "timeout: inner (fallback) result returned unchanged")
